@@ -6,6 +6,14 @@ props = [json.loads(l) for l in open(os.path.join(V, "properties.jsonl"))]
 
 # property -> (level text, level note, technique, design_ref)
 CLAIMED = {
+ "C20": ("Session.tla models the compiler session (memo of key -> output, processes with sequence numbers); TLC checks that the pure session "
+         "satisfies Functional and that an impure one (a counter leaking into outputs) violates it (non-vacuity). The real macro is then run in "
+         "K separate rustc processes over a corpus (every invocation twice per process, module order permuted, job counts, locale/TZ/env varied, "
+         "plus the repository's suite twice); TLC replays the hook's records of all processes as one history (Trace_Session: each event must be "
+         "an Invoke step, i.e. equal keys give equal outputs).",
+         "4 processes x 2 orders quick, 16 x 8 thorough; keys/outputs are whole recorded token streams; hash seeds vary by process (std RandomState)",
+         "TLA+ session model checked by TLC + TLC trace validation of multi-process expansion histories recorded from the real macro",
+         "7/C20"),
  "C15": ("TLC drives every option list (well- and ill-formed, <= 2 tokens, all leads, trailing comma) on the four targets, 16 non-supported "
          "item kinds, every dependency-parameter shape (13 bases x 6 reference/paren wrappings) in fn/mod/impl-block mode with and without "
          "no_deps, and 280 trait shapes through the modelled front end (Opts, Sig) and checks NeverPanics and MisuseRejected (each documented "
